@@ -53,7 +53,7 @@ class Sequences(Stage):
             elif k == 'star+': cmds.append(dict(alts=['*'] + [atom_text(d, g) for _ in range(d.int(0, 1))], excl=[atom_text(d, g) for _ in range(d.int(0, 1))]))
             else: cmds.append(dict(alts=[atom_text(d, g) for _ in range(d.int(1, 2))], excl=[atom_text(d, g) for _ in range(d.int(1, 2))]))
         twins = None
-        if d.chance(0.3):
+        if d.chance(0.45):
             # a pair of twins (same spelling, different kind: bare word vs quoted string) accumulated by two consecutive
             # commands on the same matcher; spelled like a string that occurs in the history when there is one
             import re as _re
